@@ -75,7 +75,7 @@ def check(ctx):
     ctx.rule("R13.4", "Polyak step: dA = K - A_prev, v' = (1-beta) v + alpha dA, A' = A_prev + v', "
                       "error = max(|dA_i| / max(|A'_i|, 1e-20))", 3)
     ctx.rule("R13.5", "accepted steps are converged steps: loop exits are {error < tolerance, raise on iteration bound, "
-                      "not include_screening}; no exit by exhaustion; initial error is +inf", 5)
+                      "not include_screening}; no exit by exhaustion; initial error is +inf (predicates on the 180 traces of update())", 3)
     ctx.rule("R13.6", "screening off: induced potential is passed through unchanged and starts as zeros", 2)
     fnum = repo.func(SCREEN, "get_A_induced_numba")
     kernel_obligations(ctx, fnum, "R13.1", "numba")
@@ -114,10 +114,18 @@ def call_sites(ctx, fg):
         if not isinstance(c, ast.Call):
             continue
         fname = getattr(c.func, "id", "")
+        from ..dataflow import expand
+
+        def _tuple(e):
+            """the elements of an argument tuple, written in place or bound to a local first"""
+            e2 = expand(fn, e) if isinstance(e, ast.Name) else e
+            return list(e2.elts) if isinstance(e2, (ast.Tuple, ast.List)) else None
         if fname == "get_A_induced_numba":
             args = c.args
+            if len(args) == 1 and isinstance(args[0], ast.Starred) and _tuple(args[0].value) is not None:
+                args = _tuple(args[0].value)
         elif fname == "get_A_induced_cupy":
-            args = c.args[2].elts if len(c.args) == 3 and isinstance(c.args[2], ast.Tuple) else []
+            args = (_tuple(c.args[2]) or []) if len(c.args) == 3 else []
         else:
             continue
         n += 1
@@ -127,19 +135,7 @@ def call_sites(ctx, fg):
                message=f"{fname} is called with {got}", consequence="areas/sites/edge centres are swapped: the kernel sums the wrong quantity")
     if n < 2:
         raise AnalysisError("expected a numba and a cupy kernel call in get_induced_vector_potential")
-    # the current handed to the screening step is the total (super + normal) current of the same iteration
-    repo = ctx.repo
-    fu = repo.func(SOLVER, "TDGLSolver.update")
-    calls = [c for c in own_nodes(fu.node) if isinstance(c, ast.Call) and norm(c.func) == "self.get_induced_vector_potential"]
-    ok = len(calls) == 1 and calls[0].args and isinstance(calls[0].args[0], ast.BinOp) and isinstance(calls[0].args[0].op, ast.Add) \
-        and {norm(calls[0].args[0].left), norm(calls[0].args[0].right)} == {"supercurrent", "normal_current"}
-    obs = [x for x in own_nodes(fu.node) if isinstance(x, ast.Assign) and isinstance(x.value, ast.Call) and norm(x.value.func) == "self.solve_for_observables"]
-    ok = ok and len(obs) == 1 and [norm(t) for t in obs[0].targets[0].elts] == ["mu", "supercurrent", "normal_current"] \
-        and obs[0].lineno < calls[0].lineno
-    ctx.ob("R13.3", "the screening step receives supercurrent + normal_current of the current iteration", ok,
-           detail=[norm(c)[:120] for c in calls], where=fu.fq, construct="current passed to get_induced_vector_potential",
-           loc=loc(fu, calls[0]) if calls else "", message="the induced potential is computed from something else than the total sheet current",
-           consequence="the stored induced potential does not correspond to the stored currents (normal current ignored, or stale currents)")
+
 
 
 def polyak(ctx, fg):
@@ -179,97 +175,79 @@ def polyak(ctx, fg):
 
 
 def loop_discipline(ctx):
+    """R13.3 / R13.5 / R13.6 on the traces of update() (pvs/update_trace.py): what the screening iteration evaluates, when it
+    stops, what it returns - for convergence at the first, second and third evaluation, for non-convergence within the bound
+    and with screening off - however the loop is written."""
+    import re
+    from ..update_trace import all_traces
+    from ..smallstep import Opaque as SO, render
     repo = ctx.repo
     fu = repo.func(SOLVER, "TDGLSolver.update")
-    fn = fu.node
-    pm = parent_map(fn)
-    loops = [n for n in own_nodes(fn) if isinstance(n, (ast.For, ast.While)) and any(
-        isinstance(c, ast.Call) and norm(c.func) == "self.get_induced_vector_potential" for c in ast.walk(n))]
-    if len(loops) != 1:
-        raise AnalysisError("TDGLSolver.update no longer has exactly one loop around get_induced_vector_potential")
-    lp = loops[0]
-    exits = [n for n in ast.walk(lp) if isinstance(n, (ast.Break, ast.Return, ast.Raise))]
-    infinite = (isinstance(lp, ast.For) and norm(lp.iter) in ("itertools.count()", "count()")) or \
-               (isinstance(lp, ast.While) and isinstance(lp.test, ast.Constant) and lp.test.value is True)
-    ctx.ob("R13.5", "the screening loop cannot run out of iterations silently (unbounded iterator; the bound is enforced by raising)",
-           infinite, detail={"loop": norm(lp).split("\n")[0]}, where=fu.fq, construct="screening loop iterator", loc=loc(fu, lp),
-           message=f"`{norm(lp).splitlines()[0]}` ends by exhaustion: after the last iteration control falls out of the loop without "
-                   f"the convergence test having succeeded",
+
+    def terms(v):
+        if isinstance(v, SO) and v.parts and v.parts[0] == "Add":
+            return terms(v.parts[1]) + terms(v.parts[2])
+        return [render(v)]
+    bad_arg, bad_exit, bad_ret, bad_off, silent = [], [], [], [], []
+    n = 0
+    for t in all_traces(repo):
+        sc = t.scenario
+        tag = ", ".join(f"{k}={v}" for k, v in sc.items() if k != "max_iterations")
+        eulers, evals = t.calls("adaptive_euler_step"), t.calls("get_induced_vector_potential")
+        n += 1
+        for k, ev in enumerate(evals):
+            cur = sorted(terms(ev.args[0])) if ev.args else None
+            if cur != [f"Jn#{k}", f"Js#{k}"]:
+                bad_arg.append(f"[{tag}] evaluation #{k} of the induced potential is handed {cur}")
+        res = None
+        if t.outcome[0] == "return":
+            v = t.outcome[1]
+            if not (isinstance(v, SO) and v.parts and v.parts[0] == "call" and v.parts[1] == "SolverResult"):
+                raise AnalysisError(f"update() does not return SolverResult(...) in the model ({render(v)[:60]})")
+            res = [render(x) for x in v.parts[2]]
+        if not sc["screening"]:
+            if t.outcome[0] != "return" or len(eulers) != 1 or evals:
+                bad_off.append(f"[{tag}] {len(eulers)} psi updates, {len(evals)} evaluations of the induced potential, outcome {t.outcome[0]}")
+            elif "induced_vector_potential" not in res:
+                bad_off.append(f"[{tag}] returns {res}: the induced potential handed in does not reach the result")
+            continue
+        K = sc["converges_at"]
+        if K is None:
+            if t.outcome[0] != "raise":
+                silent.append(f"[{tag}] returns {res} although no evaluation was below the tolerance")
+            continue
+        if t.outcome[0] != "return":
+            bad_exit.append(f"[{tag}] raises {t.outcome[1]} although evaluation #{K - 1} is below the tolerance")
+            continue
+        if len(eulers) != K or len(evals) != K:
+            bad_exit.append(f"[{tag}] {len(eulers)} psi updates and {len(evals)} evaluations; the error drops below the tolerance at evaluation #{K - 1}")
+            continue
+        want = [f"psi#{K - 1}", f"mu#{K - 1}", f"Js#{K - 1}", f"Jn#{K - 1}", f"A#{K - 1}"]
+        if res[1:6] != want:
+            bad_ret.append(f"[{tag}] returns {res[1:6]}, the converged iteration produced {want}")
+    ctx.note("update_trace_scenarios", n)
+    ctx.ob("R13.3", "the induced potential is evaluated from the total sheet current of the same iteration (supercurrent + normal current)",
+           not bad_arg, detail=bad_arg[:4], where=fu.fq, construct="argument of get_induced_vector_potential", loc=loc(fu, fu.node),
+           message=f"the induced potential is computed from something else than the total sheet current: {bad_arg[:1]}",
+           consequence="the screening field misses the normal (or the super-) current")
+    ctx.ob("R13.5", "the screening loop cannot run out of iterations silently (the bound is enforced by raising)", not silent, detail=silent[:4],
+           where=fu.fq, construct="screening loop iterator", loc=loc(fu, fu.node),
+           message=f"update() ends without the convergence test having succeeded: {silent[:1]}",
            consequence="a step whose screening iteration did not converge is accepted and recorded instead of raising",
            witness={"input": "include_screening=True with max_iterations_per_step smaller than the iterations needed"})
-    err_names = set()
-    for n in ast.walk(lp):
-        if isinstance(n, ast.Assign) and isinstance(n.value, ast.Call) and "get_induced_vector_potential" in norm(n.value.func):
-            t = n.targets[0]
-            if isinstance(t, ast.Tuple) and len(t.elts) == 2 and isinstance(t.elts[1], ast.Name):
-                err_names.add(t.elts[1].id)
-    if not err_names:
-        raise AnalysisError("the screening error returned by get_induced_vector_potential is no longer bound in the loop")
-    bad = []
-    kinds = {"converged": 0, "bound": 0, "off": 0}
-    from ..dataflow import conditions_at
-    lpvar = lp.target.id if isinstance(getattr(lp, "target", None), ast.Name) else None
-    for e in exits:
-        # the enclosing tests of the exit, each as the condition that holds there (`else` of `if c` and `if not c` read alike)
-        cs = conditions_at(fn, e, pm, within=lp, normal=False, stop=tuple(err_names) + ((lpvar,) if lpvar else ()))
-        txt = [norm(c) for c in cs]
-        c = cs[0] if len(cs) == 1 else None
-        cmp1 = isinstance(c, ast.Compare) and len(c.ops) == 1
-        if isinstance(e, ast.Break) and cmp1 and isinstance(c.ops[0], (ast.Lt, ast.LtE)) and isinstance(c.left, ast.Name) \
-                and c.left.id in err_names and "screening_tolerance" in norm(c.comparators[0]):
-            kinds["converged"] += 1
-        elif isinstance(e, ast.Raise) and cmp1 and lpvar is not None and isinstance(c.ops[0], ast.Lt) and norm(c.comparators[0]) == lpvar \
-                and "max_iterations_per_step" in norm(c.left):      # canonical: `it > max` reads `max < it`
-            kinds["bound"] += 1
-        elif isinstance(e, ast.Break) and c is not None and isinstance(c, ast.UnaryOp) and isinstance(c.op, ast.Not) \
-                and norm(c.operand).endswith("include_screening"):
-            kinds["off"] += 1
-        else:
-            bad.append(f"L{e.lineno}: {norm(e)[:60]} under {txt}")
-    ctx.ob("R13.5", "exits of the screening loop are {error < tolerance, raise on iteration bound, screening disabled}",
-           not bad and kinds["converged"] == 1 and kinds["bound"] == 1 and kinds["off"] == 1,
-           detail={"kinds": kinds, "other_exits": bad}, where=fu.fq, construct="screening loop exits", loc=loc(fu, lp),
-           message=f"the screening loop can be left through {bad} (exits found: {kinds})",
+    ctx.ob("R13.5", "exits of the screening loop are {error < tolerance, raise on iteration bound, screening disabled}: the loop stops at the "
+                    "first evaluation whose error is below the tolerance, never before the first evaluation", not bad_exit,
+           detail=bad_exit[:4], where=fu.fq, construct="screening loop exits", loc=loc(fu, fu.node),
+           message=f"the screening loop stops elsewhere: {bad_exit[:1]}",
            consequence="a step is accepted with an unconverged induced vector potential (or non-convergence does not raise)")
-    # initial error is +inf and is assigned before the loop
-    asg = assignments(fn)
-    inits = [(s, v) for nm in err_names for s, v in asg.get(nm, []) if v is not None and not any(x is s for x in ast.walk(lp))]
-    ok = len(inits) == 1 and norm(inits[0][1]) in ("np.inf", "float('inf')", "math.inf", "numpy.inf")
-    ctx.ob("R13.5", "the error starts at +inf, so iteration 0 cannot exit as converged", ok,
-           detail=[norm(v) for _, v in inits], where=fu.fq, construct="initial screening_error",
-           loc=loc(fu, inits[0][0]) if inits else "", message=f"initial screening error is {[norm(v) for _, v in inits]}",
-           consequence="the very first iteration is accepted without evaluating the induced potential")
-    # the convergence test precedes the work of each iteration and the error is reassigned every screening iteration
-    body = lp.body
-    first_if = body[0] if body and isinstance(body[0], ast.If) else None
-    ok = first_if is not None and any(isinstance(x, ast.Break) for x in first_if.body)
-    ctx.ob("R13.5", "the convergence test is the first statement of each iteration (tests the error of the last evaluation)",
-           ok, where=fu.fq, construct="position of the convergence test", loc=loc(fu, lp),
-           message="the convergence test is not evaluated on the most recent error before starting a new iteration",
-           consequence="the returned psi/currents belong to a different iteration than the one whose error was tested")
-    reass = [n for n in ast.walk(lp) if isinstance(n, ast.Assign) and any(
-        isinstance(x, ast.Name) and x.id in err_names and isinstance(x.ctx, ast.Store) for t in n.targets for x in ast.walk(t))]
-    gtxt = [[norm(c) for c in conditions_at(fn, r, pm, within=lp)] for r in reass]
-    ok = len(reass) == 1 and any(t.endswith(".include_screening") and not t.startswith("not ") for t in gtxt[0])
-    ctx.ob("R13.5", "the tested error is the one returned by the last get_induced_vector_potential (one assignment, under include_screening)",
-           ok, detail=gtxt, where=fu.fq, construct="screening_error assignment", loc=loc(fu, reass[0]) if reass else "",
-           message=f"screening error is assigned {len(reass)} times under {gtxt}",
-           consequence="the tolerance test reads a stale or unrelated quantity")
-    # R13.6
-    from .c10 import update_roles
-    a_defs = asg.get(update_roles(fn)[0], [])
-    outside = [(s, v) for s, v in a_defs if not any(x is s for x in ast.walk(lp))]
-    inside = [(s, v) for s, v in a_defs if any(x is s for x in ast.walk(lp))]
-    ok = len(outside) == 1 and norm(outside[0][1]) == "induced_vector_potential" and all(
-        any(norm(c).endswith("include_screening") and not norm(c).startswith("not ") for c in conditions_at(fn, s, pm, within=lp))
-        for s, _ in inside)
-    ctx.ob("R13.6", "with screening off A_induced reaches the result unchanged from the input", ok,
-           detail={"outside_loop": [norm(s) for s, _ in outside], "inside_loop": [norm(s)[:80] for s, _ in inside]},
-           where=fu.fq, construct="A_induced definitions", loc=loc(fu, fn),
-           message="A_induced is modified although include_screening is false",
+    ctx.ob("R13.5", "the state returned is the one of the converged iteration (psi, mu, currents and induced potential of the last evaluation)",
+           not bad_ret, detail=bad_ret[:4], where=fu.fq, construct="result of the screening loop", loc=loc(fu, fu.node),
+           message=f"{bad_ret[:1]}", consequence="the returned psi/currents belong to a different iteration than the one whose error was tested")
+    ctx.ob("R13.6", "with screening off A_induced reaches the result unchanged from the input (one psi update, no evaluation)", not bad_off,
+           detail=bad_off[:4], where=fu.fq, construct="A_induced definitions", loc=loc(fu, fu.node),
+           message=f"A_induced is modified although include_screening is false: {bad_off[:1]}",
            consequence="a non-zero induced vector potential appears with screening disabled")
     fs = repo.func(SOLVER, "TDGLSolver.solve")
-    import re
     from ..tables import runner_arguments, SEED
     a_name = "induced_vector_potential"
     init = sorted({t["values"][t["names"].index(a_name)] if a_name in t["names"] else "<missing>" for sc, t in runner_arguments(repo)})
